@@ -1,7 +1,7 @@
 CONSTANTS HW = 7
-          Margins = {21}
+          Margins = {21, 2}
           Anchors = {1, 2}
           NMax = 6
-          GenMod = 12
+          GenMod = 16
 INIT Init
 NEXT EvalGen
